@@ -91,6 +91,7 @@ def data_index_state(ctx, rule='C10-R1'):
         return 'USER'        # the caller's frame (or a copy of it)
     state = walk(stores[0].value, T.TRUE, {})
     ctx.tables['index_state_of_self._data'] = state
+    ctx.sample({'derivation of self._data (operations, oldest first)': ops_seen, 'index state': state})
     ctx.check(RANK[state] >= 1, rule, INIT, stores[0].node, stores[0].loc(),
               'on some path the frame stored as chunk data keeps the caller\'s index labels (no reset_index on the '
               'private copy): every later label-based operation (boolean-Series selection after sorting by time, '
